@@ -46,10 +46,7 @@ def run(ctx, module, weights, tags, n_quick=250, len_quick=60, n_thorough=4000, 
         ok, out = common.lean_obligations(ctx, module, lean_extra)
     exe, bout = common.cargo_build_bin(ctx, "hist")
     if exe is None:
-        # the crate under test does not build with the harness: that is a machinery failure only if
-        # the unmodified crate also fails; report it as an undischarged correspondence
-        ctx.oblige("corr:hist-build", False, bout[-2000:])
-        ctx.violation("theorem", "the correspondence harness does not build against this tree:\n" + bout[-3000:], False)
+        common.harness_build_failed(ctx, "hist", bout, what="the history correspondence harness")
         return
     model = common.lean_exe("drv_hist")
     hs = hist.load_corpus()
